@@ -127,6 +127,11 @@ def field_accesses(A, m, fields):
 def r08a(R):
     A = R.A
     jc, fields, lock = guarded_fields(A)
+    inherits = lock_inheritors(A, jc, lock)
+    _r08a_body(R, A, jc, fields, lock, inherits)
+
+
+def lock_inheritors(A, jc, lock):
     # methods only ever called with the lock held inherit it
     held_callers = {}
     for m in jc.methods.values():
@@ -143,6 +148,10 @@ def r08a(R):
                     if s.func.cls is not jc and s.kind in ('call', 'spawn')]
         if flags and all(flags) and not external and t.name.startswith('_'):
             inherits.add(t)
+    return inherits
+
+
+def _r08a_body(R, A, jc, fields, lock, inherits):
     for name, m in sorted(jc.methods.items()):
         if name == '__init__':
             continue
@@ -476,3 +485,39 @@ def r08f(R):
     R.check(enq, 'append under the lock, then _run_next_job()', ok,
             'the agent is not queued (under the lock) before the controller '
             'tries to start the next job')
+
+
+@rule('R08.h', ('C08', 'C09', 'C20'), 'a container whose bound mutator is taken '
+      'before the lock is held keeps its identity (never re-bound)', floor=1,
+      decides='a job accepted by add_job / insert_job is in the queue the '
+              'controller runs from: it is not lost when the queue is cleared '
+              'in between')
+def r08h(R):
+    A = R.A
+    jc, fields, lock = guarded_fields(A)
+    inherits = lock_inheritors(A, jc, lock)
+    # a bound mutator taken before the lock is held addresses the container
+    # object of that moment: the field must keep its identity for life
+    rebinds, early_escapes = {}, {}
+    for name, m in sorted(jc.methods.items()):
+        if name == '__init__':
+            continue
+        hn = held_nodes(A, m, lock)
+        for n, f, kind, construct in field_accesses(A, m, fields):
+            if kind == 'write' and isinstance(construct, ast.Attribute) \
+                    and isinstance(construct.ctx, ast.Store):
+                rebinds.setdefault(f, []).append((m, n))
+            if kind == 'escape' and not (m in inherits or n.id in hn):
+                early_escapes.setdefault(f, []).append((m, construct))
+    for f, sites in sorted(early_escapes.items()):
+        for m, construct in sites:
+            R.check(m, construct, f not in rebinds,
+                    'the bound mutator of %s is taken before the lock is held, '
+                    'and %s re-binds %s to a new container: a job queued '
+                    'through the stale bound method lands in the discarded '
+                    'container and is never run' % (
+                        f, ', '.join(sorted(set(x.short for x, _n in
+                                                rebinds.get(f, [])))), f))
+    if not early_escapes:
+        R.ok(jc.methods['__init__'], 'no bound mutator of a guarded container '
+             'is taken outside the lock')
